@@ -5,7 +5,7 @@ Driver for the fix-mode model with probe rules (same semantics as the generated 
 tools/fixlib.py).
 
 request := rules `|` doc_s `|` table
-rules   := rule `;` … ; rule := id_s `,` level `,` flags `,` trig_s `,` repl_s
+rules   := rule `;` … ; rule := id_s `,` level `,` flags `,` trig_s `,` repl_s `,` tokTrig_s
            flags = 6 bits: fixes hasStart hasToken hasLine hasDone doneNl
 table   := (doc_s `=` tok_s `/` tok_s …) `;` …      token strings of every document that can occur
 answer  := content_s `|` fixed `|` levels `|` ops `|` log       or `no-fix-rules`
@@ -38,8 +38,9 @@ def replaceAll (s old new : List Char) : List Char :=
         | c :: t => c :: go fuel t
   go (s.length + 1) s
 
-def mkRule (id : String) (level : Nat) (fixes st tk ln dn doneNl : Bool) (trig repl : String) : XRule :=
+def mkRule (id : String) (level : Nat) (fixes st tk ln dn doneNl : Bool) (trig repl tokTrig : String) : XRule :=
   { id := id, level := level, fixes := fixes, hasStart := st, hasToken := tk, hasLine := ln, hasDone := dn
+    tokTrig := fun t => !tokTrig.isEmpty && (findSub t.toList tokTrig.toList).isSome
     lineTrig := fun l => !trig.isEmpty && (findSub l.toList trig.toList).isSome
     lineFix := fun l => if !trig.isEmpty && (findSub l.toList trig.toList).isSome
                         then some (String.ofList (replaceAll l.toList trig.toList repl.toList)) else none
@@ -49,9 +50,9 @@ def mkRule (id : String) (level : Nat) (fixes st tk ln dn doneNl : Bool) (trig r
 
 def parseRule (s : String) : Option XRule :=
   match s.splitOn "," with
-  | [id, lv, flags, trig, repl] =>
+  | [id, lv, flags, trig, repl, tt] =>
     match flags.trimAscii.toString.toList.map (· == '1') with
-    | [a, b, c, d, e, f] => some (mkRule (decS id) (Proto.natField lv) a b c d e f (decS trig) (decS repl))
+    | [a, b, c, d, e, f] => some (mkRule (decS id) (Proto.natField lv) a b c d e f (decS trig) (decS repl) (decS tt))
     | _ => none
   | _ => none
 
